@@ -217,6 +217,7 @@ struct Engine {
     }
 
     BS Step(const BS& s, const Event& e, bool& ok) {
+        const size_t viol_before = res.violation_events;
         ok = true;
         Full start = Concrete(s);
         Load(start);
@@ -301,6 +302,10 @@ struct Engine {
             }
         if (!(got.b == s) || !got_obs.frames.empty() || got_obs.irq)
             digests.insert(Fnv(&got.b, sizeof(BS), Mix(e.kind * 131 + e.arg) ^ Fnv(&s, sizeof(BS))));
+        // a transition that violated the property is reported and not expanded: the implementation's successor may lie outside
+        // the (finite) state space of the statement and would make the search diverge
+        if (res.violation_events != viol_before)
+            ok = false;
         return got.b;
     }
 
